@@ -29,12 +29,16 @@ def run(ck, ctx):
     ck.rule("R13.8", "everything folded is written: each iteration of compaction's loop over the folded per-key map passes "
                      "SegmentWriter::write_delta, its error is propagated, and no adaptor filters the map on the way to the writer "
                      "(dropping is only done by the tombstone rule R13.7 before this loop)")
+    ck.rule("R13.9", "the compaction input is an oldest-first prefix of the candidate list: after candidates are sorted by id only "
+                     "prefix-preserving adaptors (take / take_while) may narrow the list; a filter/skip behind the sort lets a newer "
+                     "tombstone be compacted (and dropped) while an older value of its key stays behind in a skipped segment")
     ck.nd("state equality for all layouts and interleavings")
     for cfg in ctx.configs:
         prog = ctx.prog(cfg)
         ck.configs.append(cfg)
         ck.fn_count += len(prog.fns)
         _rules(ck, prog, cfg)
+        _r139(ck, prog, cfg)
         from . import c12
         c12._r127(ck, prog, [f for f in prog.lib_fns() if f.file == "src/streaming/compaction.rs"], cfg, rid="R13.8", floor=1)
 
@@ -358,3 +362,33 @@ def _ids_from_actually_compacted(prog, fn, clo):
                     for a in payload["args"]:
                         work.append(a)
     return False
+
+
+def _r139(ck, prog, cfg):
+    sel = prog.one("streaming::compaction::Compactor::<S, T>::select_segments_to_compact")
+    sorts = [(b, t) for b, t in sel.calls() if is_callee(t, r"<impl \[.*\]>::sort", r"slice::<impl \[T\]>::sort")]
+    ck.check(len(sorts) == 1, "R13.9", "selection:sorted-by-id" + _tag(cfg), "candidates are not sorted exactly once", sel.where())
+    if len(sorts) != 1:
+        return
+    sb = sorts[0][0]
+    # the returned value: collect(...) whose chain after the sort contains only into_iter/iter/take/take_while/copied/cloned
+    rets = [(b, t) for b, t in sel.calls() if is_callee(t, r"Iterator>::collect::") and t["dest"] == {"l": 0}]
+    ck.check(len(rets) == 1 and sel.dominates(sb, rets[0][0]), "R13.9", "selection:collect-after-sort" + _tag(cfg),
+             "the selection is not collected from the sorted candidate list", sel.where())
+    if len(rets) != 1:
+        return
+    chain = []
+    cur = src_of_operand(sel, rets[0][1]["args"][0])
+    hops = 0
+    while cur.kind == "call" and hops < 10:
+        chain.append(callee(cur.term).rsplit("::", 1)[-1].split("<")[0])
+        if is_callee(cur.term, r"IntoIterator>::into_iter$", r"<impl \[.*\]>::iter$", r"Vec::<.*>::iter$"):
+            break
+        if not cur.term["args"]:
+            break
+        cur = src_of_operand(sel, cur.term["args"][0])
+        hops += 1
+    bad = [c for c in chain if c not in ("take", "take_while", "into_iter", "iter", "copied", "cloned", "by_ref")]
+    ck.check(not bad and chain, "R13.9", "selection:prefix-of-sorted-candidates" + _tag(cfg),
+             "the sorted candidate list is narrowed by %s: the selection is no longer an oldest-first prefix, so a newer segment can be "
+             "compacted while an older one is skipped" % bad, sel.where(rets[0][1]["ln"]), detail="chain after sort: %s" % chain)
